@@ -17,7 +17,7 @@ import traceback
 import z3
 from .. import core, symx, shims, unit
 from ..symx import Engine
-from ..gen import core1, f1, f2, f3, f4, f5
+from ..gen import core1, f1, f2, f3, f4, f4r, f5
 from ..nslref import joint
 from ..nslref.interp import deep
 from . import famcheck
@@ -284,6 +284,7 @@ def family(tier, seed):
     items += f4items
     items += f1.generate(seed, 100 if tier == "quick" else 1500, depth=3, nmax=3)
     items += f3.random_calls(seed, 30 if tier == "quick" else 400)
+    items += f4r.generate(seed, 40 if tier == "quick" else 600)
     return items
 
 
